@@ -133,6 +133,9 @@ def run(tier):
                         if ctr.get("collections", 0) == 0 and ctr.get("safepoints", 0) > 10:
                             forced_without_gc += 1
                 pan = [e for e in got if e[0] == "panic"]
+                if pan and common.is_oom_text(pan[0][1]):
+                    rep.inconc("allocation failure", c["id"])
+                    continue
                 if pan:
                     rep.violation("c03:panic:" + pan[0][1][:80], "[%s] panic under schedule %s: %s" % (flavor, c["id"], pan[0][1]), {"flavor": flavor, "case": c, "opts": opts})
                     continue
